@@ -413,5 +413,6 @@ func runC10(r *Run) {
 		r.Count("concurrent-rounds")
 		r.Trace()
 	}
-	r.Finish("histories (8..37 operations) over the real cache plugin, plain and with lazy cache: produce a response (A / AAAA / TXT / CNAME answers, optional NS, glue, OPT), store it, serve fresh or stale hits through Cache.Exec, overwrite in place any tracked element of any message held by a caller (question element, owner name, class, record data, the slice element, TTL); 8 goroutines x 60 concurrent hits that rewrite what they were served while the producer rewrites what it stored (second pass under the race detector)")
+	r.burst10(mkResp, mutate, raceOnly)
+	r.Finish("histories (8..37 operations) over the real cache plugin, plain and with lazy cache: produce a response (A / AAAA / TXT / CNAME answers, optional NS, glue, OPT), store it, serve fresh or stale hits through Cache.Exec, overwrite in place any tracked element of any message held by a caller (question element, owner name, class, record data, the slice element, TTL); 8 goroutines x 60 concurrent hits that rewrite what they were served while the producer rewrites what it stored (second pass under the race detector); 2..5 queries for one question in flight on a cold or expired entry (the upstream stub keeps the first exchange open until the others returned or queued up, and gives every exchange its own message), then each client in turn rewrites every element of its answer, appends its OPT and truncates: no other client's answer may change, a later hit serves the upstream's contents (replayed on the model as miss / look-at-handle operations; in the race pass the clients rewrite right after Exec returns)")
 }
